@@ -23,6 +23,14 @@ def widen_c01(steps):
     for s in steps:
         out.append(s)
         if s["op"] == "write_env":
+            # an env directory as a restored cache may hold it: NAME and NAME.override side by side (both mean "override"). Which one wins
+            # is not specified, but it must be the same one in every process
+            dups = []
+            for i in range(8):
+                for root in ("env", "env.launch/web"):
+                    dups.append(["%s/DUP%d" % (root, i), b"plain-%d" % i])
+                    dups.append(["%s/DUP%d.override" % (root, i), b"suffixed-%d" % i])
+            out.append({"op": "fs_write", "name": s["name"], "files": [[p, v.hex()] for p, v in dups], "links": []})
             out.append({"op": "env_to_metadata", "name": s["name"]})
         if s["op"] == "write_exec_d":
             # re-arrange the programs using the layer's own exec.d files as sources (swap): whatever happens must not depend on the process
